@@ -139,7 +139,7 @@ def run_stress(n, seed):
 
 
 def check_C05(pid, tier, seed, t0):
-    stress = run_stress(6 if tier == "quick" else 36, seed)
+    stress = run_stress(8 if tier == "quick" else 40, seed)
     extra = {"stress_runs": [r["case"] + " -> " + r["impl"] for r in stress]}
     # the stress records go through the generic machinery as impl-only cases
     orig = p_codec.run_harness
@@ -153,7 +153,7 @@ def check_C05(pid, tier, seed, t0):
             pid, tier, seed, t0,
             runs=[("session", 1500, 40000, None)],
             nontrivial=lambda r: " IN " in r["case"] or r["mode"] == "stress",
-            rule=p_session.RULE + "; plus the stress driver: G in {2,8,64} goroutines x M sends with 1 s heartbeats, inbound "
+            rule=p_session.RULE + "; plus the stress driver (runs 6,7 of every 8: a successor session on the store of a session that lost its connection while logged on, numbered consecutively for 2.7 s): G in {2,8,64} goroutines x M sends with 1 s heartbeats, inbound "
                  "test/resend requests, GOMAXPROCS in {1,2,16}, buffers {0,1,10}, random delays inside the counter store, the "
                  "message store and an outgoing handler; oracle: new numbers arrive consecutively at the peer",
             assumptions=p_session.SESSION_ASSUMPTIONS + ["Go memory model and scheduler not modelled: the concurrency theorem is "
